@@ -303,9 +303,9 @@ pub struct Obs {
     pub note: String,
 }
 
-/// The documented re-feed loop over the in-memory handler: for each chunk, prepend the tail
-/// returned by the previous invocation (plus whatever the previous invocation left unread in
-/// the reader it was given), pass the upgraded interface on.
+/// The documented re-feed loop over the in-memory handler (varlink/src/test.rs): for each chunk, prepend the
+/// tail RETURNED by the previous invocation — and nothing else: the reader handed to handle() is a temporary
+/// over the caller's buffer, whatever the handler leaves unread in it is gone — and pass the upgraded interface on.
 pub fn run_mem(service: &VarlinkService, log: &SharedLog, chunks: &[Vec<u8>], up_tok: Option<&str>) -> Obs {
     let mut obs = Obs::default();
     let mut tail: Vec<u8> = Vec::new();
@@ -332,7 +332,6 @@ pub fn run_mem(service: &VarlinkService, log: &SharedLog, chunks: &[Vec<u8>], up
             }
             Ok(Ok((t, i))) => {
                 tail = t;
-                tail.extend_from_slice(slice); // what the handler left unread in our reader
                 iface = i;
                 obs.rets.push(json!({"tail": tail.clone(), "upg": iface.is_some(),
                     "nout": obs.out.iter().filter(|b| **b == 0).count()}));
@@ -356,7 +355,6 @@ pub fn run_mem(service: &VarlinkService, log: &SharedLog, chunks: &[Vec<u8>], up
             Ok(Err(_)) => {}
             Ok(Ok((t, _))) => {
                 tail = t;
-                tail.extend_from_slice(slice);
             }
         }
     }
